@@ -295,7 +295,7 @@ def check_pair(b, c, res, show_processing=False, label=""):
         v = ("reporter-raises", f"{type(e).__name__}: {e} @ {traceback.extract_tb(e.__traceback__)[-1][:3]}")
         plain = []
     res.case(
-        case_repr={"baseline": b, "contender": c, "rows": [[str(x) for x in r] for r in plain[:3]]} if res.evaluations % 2003 == 1 else None,
+        case_repr={"baseline": b, "contender": c, "rows": [[str(x) for x in r] for r in plain[:3]]} if res.sample_now(2003) else None,
         nontrivial_key=(repr(b), repr(c), show_processing) if plain else None,
         outcome_key=(len(plain), v[0] if v else "ok", tuple(r[4][:1] + r[6][:1] for r in plain[:4])),
     )
